@@ -382,7 +382,9 @@ func c19Imports(c *Ctx) {
 	}
 	if fn := c.fn(pkgResolvergen, "*File.Imports"); fn != nil {
 		withAlias, without := false, false
-		for _, call := range an.CallsIn(fn, func(_ ssa.CallInstruction, ci an.CalleeInfo) bool { return strings.HasSuffix(ci.FullName(), "templates.Imports).Reserve") }) {
+		for _, call := range an.CallsIn(fn, func(_ ssa.CallInstruction, ci an.CalleeInfo) bool {
+			return strings.HasSuffix(ci.FullName(), "templates.Imports).Reserve")
+		}) {
 			args := call.Common().Args
 			// variadic aliases: last arg is a slice; non-nil when an alias is passed
 			last := args[len(args)-1]
